@@ -24,8 +24,8 @@ REAL_VS_STUB = {"real": ["icg_gym_linear.ICG_Gym_Linear", "icg_gym.ICG_Gym", "bo
 ASSUMPTIONS = ["the inner environment's own outputs are judged by the C09 oracle in the same run"]
 PROBES = ["size_exhausted_masked", "tie_break_among_3plus", "reset_mid_episode", "done_reached", "n6"]
 TIERS = {
-    "quick": {"runs": 8000, "wall": 40, "batch": 8, "shrink_s": 40},
-    "thorough": {"runs": 500000, "wall": 600, "batch": 16, "shrink_s": 120},
+    "quick": {"runs": 10000, "wall": 40, "batch": 8, "shrink_s": 40},
+    "thorough": {"runs": 2000000, "wall": 900, "batch": 16, "shrink_s": 120},
 }
 KEYS = {"SA": ["factory", "noisy_factory", "graph_random", "graph_cycle", "factory_cheerleader_next"],
         "SAM": ["xos", "xs", "k_budget_generator", "covg_fn_generator", "oxs"]}
